@@ -82,7 +82,19 @@ def run(ctx):
     res = run_texts(ctx, items)
     for i in range(len(docs)):
         if res["canon%d" % i][0] != 0 or not res["canon%d" % i][1]:
-            raise Infra("the canonical layout of document %s is not accepted by this tree: %s" % (docs[i].name, res["canon%d" % i][2]))
+            # the canonical layout is rejected.  If another layout of the same document is accepted the decision depends on the layout
+            # (a verdict); if none is, the document does not fit this tree (no verdict).
+            ok_alt = [(name, vec, text) for name, di, vec, text in meta if di == i and res[name][0] == 0 and res[name][1]]
+            if ok_alt:
+                name, vec, text = ok_alt[0]
+                ctx.violation("document %s: the canonical layout is rejected (%s) while %d other layouts of the same document are accepted, e.g. vector %s" % (
+                    docs[i].name, res["canon%d" % i][2], len(ok_alt), vec), {"doc": docs[i].name, "vec": vec, "text": text, "canonical": canon[i]})
+                ctx.finish_early = True
+            else:
+                raise Infra("the canonical layout of document %s is not accepted by this tree: %s" % (docs[i].name, res["canon%d" % i][2]))
+    if getattr(ctx, "finish_early", False):
+        ctx.traces = len(meta)
+        return
     lines = []
     for name, di, vec, text in meta:
         rc, h, diag = res[name]
